@@ -738,8 +738,9 @@ SCALAR = {
 }
 NESTS = ['list_empty', 'dict_empty', 'list_scalars', 'dict_scalars', 'list_list', 'list_dict', 'dict_list', 'dict_dict']
 STRNESTS = ['list_str', 'dict_str', 'dict_strkey']
-CMDKINDS = {'plain': ['trigger', 'switch', 'x'], 'ident': ['ball_started', 'mode2_stop', 'player_turn_start', 'a_1_b']}
-KEYS = [['name', 'k1', 'player_num'], ['value', 'k2', 'state'], ['x', 'k3', 'prev_value']]
+# (identifiers with upper-case letters too: names must come back exactly as sent)
+CMDKINDS = {'plain': ['trigger', 'switch', 'x'], 'ident': ['ball_started', 'mode2_stop', 'player_turn_start', 'a_1_b', 'showStatus']}
+KEYS = [['name', 'k1', 'player_num', 'slideName'], ['value', 'k2', 'state', 'Value'], ['x', 'k3', 'prev_value', 'X']]
 
 
 def _nest(sub, s, rng):
